@@ -292,6 +292,29 @@ func runOSCacheLayer(c *Ctx) {
 				c.Oracle("FAIL oslayer%d layers-diverge:os-layers after OpenFile(%q, %#x) through the cache (base and layer on the OS, duration %v) the layer holds %q, the base %q", n, p, fl, dur, inLayer, inBase)
 			}
 		}
+		// a read-write handle through the cache, positioned beyond the end: a Read there reports the end
+		// of the file without moving anything, and the following Write lands at the same offset in both
+		{
+			p := "/seek"
+			afero.WriteFile(base, p, []byte("hello"), 0o644)
+			afero.ReadFile(u, p)
+			if h, err := u.OpenFile(p, os.O_RDWR, 0o644); err == nil {
+				h.Seek(8, 0)
+				h.Read(make([]byte, 4))
+				h.Write([]byte("XY"))
+				h.Seek(1, 0)
+				h.Read(make([]byte, 0))
+				h.Write([]byte("Z"))
+				h.Close()
+			}
+			inLayer, errL := os.ReadFile(filepath.Join(dirL, p))
+			inBase, _ := os.ReadFile(filepath.Join(dirB, p))
+			n++
+			c.Count("oslayer.seek-beyond-end")
+			if errL == nil && string(inLayer) != string(inBase) {
+				c.Oracle("FAIL oslayer%d layers-diverge:os-layers:seek-beyond-end after Seek(8), Read, Write(XY), Seek(1), Read(empty), Write(Z) through one read-write handle of the cache (base and layer on the OS, duration %v) the layer holds %q, the base %q", n, dur, inLayer, inBase)
+			}
+		}
 		os.RemoveAll(dirB)
 		os.RemoveAll(dirL)
 	}
